@@ -37,6 +37,13 @@ type c06QuicPlan struct {
 	Overlap   bool
 	Classes   []string
 	Mutated   bool
+	// history after the first flight (same parallel slices Datagrams/Ranges/Corrupt):
+	Primary int      // number of datagrams of the first flight
+	Events  []string // per datagram: "" | "endpoint_lost" (before it; only meaningful for handlePkt)
+	Flight  []int    // per datagram: 0 = this connection, 1 = a second connection attempt on the same 5-tuple
+	Compact bool     // the caller compacts the session after every final verdict, as handlePkt does
+	Want2   string
+	Hello2  []byte
 }
 
 // c06Covered reports whether [0,n) is covered by the union of the ranges.
@@ -285,5 +292,82 @@ func c06GenQuicPlan(t *rapid.T) *c06QuicPlan {
 		p.Classes = append(p.Classes, "quic:negative_"+p.Corrupt[i])
 	}
 	p.Style = rapid.SampledFrom([]string{"pool", "pool", "ctor"}).Draw(t, "style")
+	p.Primary = len(p.Datagrams)
+	p.Events = make([]string, len(p.Datagrams))
+	p.Flight = make([]int, len(p.Datagrams))
 	return p
+}
+
+// c06GenContinuation extends the history of the flow beyond its first flight: the
+// session lives on after its verdict (handlePkt compacts it and keeps it for 5 s),
+// so retransmitted Initials, junk and a second connection attempt on the same
+// 5-tuple reach it later — e.g. when the UDP endpoint was torn down in between.
+func c06GenContinuation(t *rapid.T, p *c06QuicPlan, secondAttempt bool) {
+	p.Compact = rapid.IntRange(0, 5).Draw(t, "compact") != 5
+	var clean []int
+	for i := 0; i < p.Primary; i++ {
+		if p.Corrupt[i] == "" {
+			clean = append(clean, i)
+		}
+	}
+	add := func(d []byte, rs [][2]int, corrupt, event string, flight int) {
+		p.Datagrams = append(p.Datagrams, d)
+		p.Ranges = append(p.Ranges, rs)
+		p.Corrupt = append(p.Corrupt, corrupt)
+		p.Events = append(p.Events, event)
+		p.Flight = append(p.Flight, flight)
+	}
+	for ph := rapid.SampledFrom([]int{0, 1, 1, 2, 2, 3}).Draw(t, "nphases"); ph > 0 && len(clean) > 0; ph-- {
+		event := rapid.SampledFrom([]string{"endpoint_lost", "endpoint_lost", ""}).Draw(t, "phaseevent")
+		kinds := []string{"retransmit_flight", "retransmit_flight", "retransmit_flight", "retransmit_one", "junk_trunc", "junk_random", "junk_flip"}
+		if secondAttempt {
+			kinds = append(kinds, "second_attempt")
+		}
+		kind := rapid.SampledFrom(kinds).Draw(t, "phasekind")
+		p.Classes = append(p.Classes, "quic:cont_"+kind)
+		if event != "" {
+			p.Classes = append(p.Classes, "quic:cont_after_endpoint_lost")
+		}
+		switch kind {
+		case "retransmit_flight":
+			order := clean
+			if rapid.IntRange(0, 3).Draw(t, "retransshuffle") == 3 {
+				order = rapid.Permutation(clean).Draw(t, "retransorder")
+			}
+			for k, i := range order {
+				ev := ""
+				if k == 0 {
+					ev = event
+				}
+				add(append([]byte(nil), p.Datagrams[i]...), p.Ranges[i], "", ev, 0)
+			}
+		case "retransmit_one":
+			i := rapid.SampledFrom(clean).Draw(t, "retransone")
+			add(append([]byte(nil), p.Datagrams[i]...), p.Ranges[i], "", event, 0)
+		case "junk_trunc":
+			d := p.Datagrams[clean[0]]
+			add(append([]byte(nil), d[:rapid.IntRange(min(40, len(d)), len(d)-1).Draw(t, "junktrunc")]...), nil, "trunc", event, 0)
+			p.Mutated = true
+		case "junk_random":
+			add(c06Bytes(t, "junkrandom", 1, 1300), nil, "random", event, 0)
+			p.Mutated = true
+		case "junk_flip":
+			d := append([]byte(nil), p.Datagrams[rapid.SampledFrom(clean).Draw(t, "junkflipwhich")]...)
+			d[rapid.IntRange(min(60, len(d)-1), len(d)-1).Draw(t, "junkflipbyte")] ^= 0x10
+			add(d, nil, "flip", event, 0)
+			p.Mutated = true
+		case "second_attempt":
+			q := c06GenQuicPlan(t)
+			p.Want2, p.Hello2 = q.Want, q.Hello
+			for k := 0; k < q.Primary; k++ {
+				ev := ""
+				if k == 0 {
+					ev = event
+				}
+				c := q.Corrupt[k]
+				add(q.Datagrams[k], q.Ranges[k], c, ev, 1)
+			}
+			secondAttempt = false
+		}
+	}
 }
